@@ -474,20 +474,20 @@ PROGRAMS_Q = [
     {'program': ('plainx', 'plain', 'plain'), 'depth': 24},
     {'program': ('plain', 'plainx', 'plainx'), 'depth': 24},
     {'program': ('plain', 'plainx', 'plain', 'hb'), 'threshold': 2, 'depth': 24},
-    {'program': ('plainx', 'cp', 'plain', 'plain'), 'threshold': 2, 'depth': 24},
+    {'program': ('plainx', 'cp', 'plain'), 'depth': 24},
 ]
 def _programs_thorough():
-    """every program of 4 requests over {plain, plainx, cp, hb} with at most one cp, one hb and one plainx, inline and with the
-    callback thread (threshold 2), every program of 3 plain requests with any subset of raising handlers, plus the blocking
-    waiter after every 2-request prefix"""
+    """every program of 4 requests over {plain, cp, hb} with at most one cp and one hb, and the same with exactly one raising
+    handler (plainx) and no cp, inline and with the callback thread (threshold 2); every program of 3 requests over
+    {plain, plainx, cp} with a raising handler (at most one cp); plus the blocking waiter after every 2-request prefix"""
     import itertools
     out = []
     for t in itertools.product(('plain', 'plainx', 'cp', 'hb'), repeat=4):
-        if t.count('cp') <= 1 and t.count('hb') <= 1 and t.count('plainx') <= 1:
+        if t.count('cp') <= 1 and t.count('hb') <= 1 and (t.count('plainx') == 0 or (t.count('plainx') == 1 and 'cp' not in t)):
             out.append({'program': t, 'depth': 40})
             out.append({'program': t, 'threshold': 2, 'depth': 40})
-    for t in itertools.product(('plain', 'plainx'), repeat=3):
-        if t.count('plainx') >= 2:
+    for t in itertools.product(('plain', 'plainx', 'cp'), repeat=3):
+        if t.count('plainx') >= 1 and t.count('cp') <= 1:
             out.append({'program': t, 'depth': 40})
             out.append({'program': t, 'threshold': 2, 'depth': 40})
     for t in itertools.product(('plain', 'cp', 'hb'), repeat=2):
